@@ -54,6 +54,10 @@ def worlds(tier):
             ws.append(w.W(f"probe2-cond-uneven-{bp}", w.fixed_times(w.cond_uneven()), w.C2, "EDF", split=8, weight=100, c18_probe_at=2, branch_policy=bp,
                           tasks=small(("C", "a", "a2", "b", "J"))))
         ws += [
+            w.W("cond-branches-with-their-own-sinks-havoc-release_taskgraphs", w.fixed_times(w.cond_nojoin()), w.C2, "HAVOC", split=9,
+                havoc=dict(hv, release_taskgraphs=True, max_unplaced=0, first_pool_only=True, future=False), tasks=small(("C", "a", "a2", "b", "b2")), weight=400),
+            w.W("chain3-havoc-lookahead-retract", w.fixed_times(w.chain(3)), w.C1, "HAVOC", split=9, havoc=dict(max_delta=1, lookahead=["sym", 0, 4], retract=True, max_replans=1, max_unplaced=0), tasks={t: {"strategies": [{"rt": 2}]} for t in ("T0", "T1", "T2")}, weight=400),
+            w.W("probe3-diamond-EDF", w.fixed_times(w.diamond()), w.C2, "EDF", split=8, weight=200, c18_probe_at=3, tasks=small(("A", "B", "C", "D"))),
             w.W("diamond-2cpu-EDF", w.diamond(), w.C2, "EDF", split=8, weight=200),
             w.W("probe2-diamond-havoc", w.fixed_times(w.diamond()), w.C2, "HAVOC", split=9, weight=300, c18_probe_at=2,
                 havoc=dict(hv, release_taskgraphs=True, max_unplaced=0, first_pool_only=True), tasks=small(("A", "B", "C", "D"))),
